@@ -1598,6 +1598,14 @@ def controls(ctx):
     cases.append(("settings-header-only", gen.simple_form(base_q, settings={"form_title": None})))
     cases.append(("instance-id-setting", gen.simple_form(base_q, settings={"instance_id": "timestamp"})))
     cases.append(("single-note", gen.simple_form([("note", "n", {"label": "N"})])))
+    # sections that end up with nothing inside: converted or refused, but never an internal exception ('?' = a refusal is acceptable)
+    lp = gen.simple_form([("begin loop over l9", "lp", {"label": "L"}, [("text", "q", {"label": "Q %(label)s"})])], choices={"l9": [{"name": "none", "label": "None"}]})
+    lp.survey[0].meta["end_type"] = "end loop"
+    cases.append(("?loop-over-a-list-whose-only-choice-is-none", lp))
+    cases.append(("?survey-with-no-element", gen.simple_form([("form_title", "T", {})], settings={"omit_instanceID": "yes"})))
+    cases.append(("?empty-group", gen.simple_form([("begin group", "g", {"label": "G"}, []), ("text", "q", {"label": "Q"})])))
+    cases.append(("?empty-repeat", gen.simple_form([("begin repeat", "r", {"label": "R"}, []), ("text", "q", {"label": "Q"})])))
+    cases.append(("?group-of-disabled-rows", gen.simple_form([("begin group", "g", {"label": "G"}, [("text", "d", {"label": "D", "disabled": "yes"})]), ("text", "q", {"label": "Q"})])))
     for k, (name, f) in enumerate(cases):
         if not ctx.mine(k):
             continue
@@ -1605,6 +1613,8 @@ def controls(ctx):
             o = drive.convert_form(f, fmt=fmt)
             ctx.ctr("control_forms")
             ctx.case(sig=f"control|{name}|{fmt}|{'ok' if o.ok else o.exc_type}")
+            if name.startswith("?") and (o.ok or o.exc_is_pyxform):
+                continue
             if not o.ok:
                 kind = "refused" if o.exc_is_pyxform else f"crash:{o.exc_type}"
                 ctx.viol(f"control-form:{kind}:{name.split(':')[0]}", f"a valid form ({name}, {fmt}) is not converted: {o.brief()[:250]} at {o.exc_frame}", common.witness(f, kind="control:" + name, fmt=fmt))
